@@ -300,12 +300,129 @@ mod panics {
     }
 }
 
+/// C08: every place outside `Token::make_word` where the SPELLING of a word takes part in a
+/// decision: comparisons of a `.value` / `to_string()` with a string, keyword-table searches, and
+/// the case-folding calls themselves.  Keyed by (file, fn, kind, normalised text, ordinal).
+mod spelling {
+    use quote::ToTokens;
+    use serde_json::{json, Value};
+    use std::collections::BTreeMap;
+    use syn::visit::Visit;
+
+    fn is_test_attr(attrs: &[syn::Attribute]) -> bool {
+        attrs.iter().any(|a| {
+            let t = a.to_token_stream().to_string();
+            t.contains("cfg (test)") || t.contains("cfg(test)") || t == "# [test]"
+        })
+    }
+    struct V { file: String, fn_stack: Vec<String>, out: Vec<Value>, ord: BTreeMap<String, usize> }
+    impl V {
+        fn push(&mut self, kind: &str, text: String) {
+            let f = self.fn_stack.last().cloned().unwrap_or_default();
+            let text = text.split_whitespace().collect::<Vec<_>>().join(" ");
+            let base = format!("{}:{}:{}:{}", self.file.trim_start_matches("src/").trim_end_matches(".rs"), f, kind, text);
+            let n = self.ord.entry(base.clone()).or_insert(0);
+            let key = format!("{}#{}", base, *n);
+            *n += 1;
+            let folded = ["to_uppercase", "to_lowercase", "to_ascii_uppercase", "to_ascii_lowercase", "eq_ignore_ascii_case"].iter().any(|m| text.contains(m));
+            self.out.push(json!({"key": key, "file": self.file, "fn": f, "kind": kind, "text": text, "folded": folded}));
+        }
+    }
+    fn mentions_spelling(t: &str) -> bool {
+        t.contains(". value") || t.contains(".value") || t.contains("to_string ()") || t.contains("word") || t.contains("ident")
+    }
+    impl<'ast> Visit<'ast> for V {
+        fn visit_item_mod(&mut self, m: &'ast syn::ItemMod) {
+            if is_test_attr(&m.attrs) { return; }
+            syn::visit::visit_item_mod(self, m);
+        }
+        fn visit_item_fn(&mut self, f: &'ast syn::ItemFn) {
+            if is_test_attr(&f.attrs) { return; }
+            self.fn_stack.push(f.sig.ident.to_string());
+            syn::visit::visit_item_fn(self, f);
+            self.fn_stack.pop();
+        }
+        fn visit_impl_item_fn(&mut self, f: &'ast syn::ImplItemFn) {
+            if is_test_attr(&f.attrs) { return; }
+            self.fn_stack.push(f.sig.ident.to_string());
+            syn::visit::visit_impl_item_fn(self, f);
+            self.fn_stack.pop();
+        }
+        fn visit_expr_binary(&mut self, e: &'ast syn::ExprBinary) {
+            if matches!(e.op, syn::BinOp::Eq(_) | syn::BinOp::Ne(_)) {
+                let (l, r) = (e.left.to_token_stream().to_string(), e.right.to_token_stream().to_string());
+                let lit = |x: &syn::Expr| matches!(x, syn::Expr::Lit(syn::ExprLit { lit: syn::Lit::Str(_), .. }));
+                if (lit(&e.left) && mentions_spelling(&r)) || (lit(&e.right) && mentions_spelling(&l)) {
+                    self.push("cmp", e.to_token_stream().to_string());
+                }
+            }
+            syn::visit::visit_expr_binary(self, e);
+        }
+        fn visit_expr_method_call(&mut self, e: &'ast syn::ExprMethodCall) {
+            let m = e.method.to_string();
+            if ["to_uppercase", "to_lowercase", "to_ascii_uppercase", "to_ascii_lowercase"].contains(&m.as_str()) {
+                self.push("fold", e.to_token_stream().to_string());
+            } else if ["binary_search", "eq_ignore_ascii_case"].contains(&m.as_str()) {
+                self.push("lookup", e.to_token_stream().to_string());
+            } else if ["starts_with", "ends_with", "contains", "eq"].contains(&m.as_str()) {
+                let t = e.to_token_stream().to_string();
+                let str_arg = e.args.iter().any(|a| matches!(a, syn::Expr::Lit(syn::ExprLit { lit: syn::Lit::Str(_), .. })));
+                if str_arg && mentions_spelling(&e.receiver.to_token_stream().to_string()) { self.push("cmp", t); }
+            }
+            syn::visit::visit_expr_method_call(self, e);
+        }
+        fn visit_expr_match(&mut self, m: &'ast syn::ExprMatch) {
+            // match on the text of a word: `match w.value.as_str() { "x" => .. }`
+            let scr = m.expr.to_token_stream().to_string();
+            let str_arms = m.arms.iter().any(|a| a.pat.to_token_stream().to_string().contains('"'));
+            if str_arms && (scr.contains("as_str") || scr.contains("as_ref")) {
+                self.push("match", scr);
+            }
+            syn::visit::visit_expr_match(self, m);
+        }
+        fn visit_macro(&mut self, m: &'ast syn::Macro) {
+            if let Ok(args) = m.parse_body_with(syn::punctuated::Punctuated::<syn::Expr, syn::Token![,]>::parse_terminated) {
+                for a in args.iter() { self.visit_expr(a); }
+            }
+        }
+    }
+    pub fn run(repo: &str) -> Value {
+        let mut all = vec![];
+        let mut unparsed = vec![];
+        let mut files: Vec<std::path::PathBuf> = vec![];
+        for d in ["src/parser", "src/dialect"] {
+            if let Ok(rd) = std::fs::read_dir(format!("{repo}/{d}")) {
+                for e in rd.flatten() {
+                    let p = e.path();
+                    if p.extension().map(|x| x == "rs").unwrap_or(false) { files.push(p); }
+                }
+            }
+        }
+        files.push(std::path::PathBuf::from(format!("{repo}/src/tokenizer.rs")));
+        files.sort();
+        for f in files {
+            let rel = f.strip_prefix(repo).unwrap().to_string_lossy().trim_start_matches('/').to_string();
+            let src = match std::fs::read_to_string(&f) { Ok(s) => s, Err(e) => { unparsed.push(format!("{rel}: {e}")); continue; } };
+            match syn::parse_file(&src) {
+                Ok(file) => {
+                    let mut v = V { file: rel, fn_stack: vec![], out: vec![], ord: BTreeMap::new() };
+                    v.visit_file(&file);
+                    all.extend(v.out);
+                }
+                Err(e) => unparsed.push(format!("{rel}: {e}")),
+            }
+        }
+        json!({"sites": all, "unparsed": unparsed})
+    }
+}
+
 fn main() {
     let args: Vec<String> = std::env::args().collect();
     let what = args.get(1).map(|s| s.as_str()).unwrap_or("");
     let v = match what {
         "keywords" => keywords(),
         "dialects" => dialects(),
+        "spelling" => spelling::run(args.get(2).map(|s| s.as_str()).unwrap_or("/repo")),
         "panics" => panics::run(args.get(2).map(|s| s.as_str()).unwrap_or("/repo")),
         _ => {
             eprintln!("usage: extract keywords");
